@@ -1962,7 +1962,7 @@ pub fn run(tier: &str, seed: u64, out: &Path) -> i32 {
     probes(&ctx, &mut o);
 
     o.notes.push("direct comparisons: formatted text of every file (alone and in every order of a joint run) = text of the same source under the values the MODEL resolves for it (reference run on stdin with explicit --config, no config file in reach); joint = single; one option from a file vs --config (all fields) and vs the API setter (values); heuristic widths <= max_width (Max, Default from 70); print/re-parse = same".into());
-    o.notes.push("not generated: file_lines / width_heuristics in a rustfmt.toml (the first panics in serde, C16's matter), TOML integers above i64::MAX, --config-path naming a file that is not called rustfmt.toml / .rustfmt.toml, HOME or the config directory being a regular file, symlinks".into());
+    o.notes.push("not generated: file_lines / width_heuristics in a rustfmt.toml (the first panics in serde, C16's matter), TOML integers above i64::MAX, HOME or the config directory being a regular file, symlinks".into());
     if std::env::var("C14_KEEP").is_err() {
         let _ = std::fs::remove_dir_all(&work);
     }
